@@ -8,6 +8,8 @@ import RbV.Model.SampledGet
 import RbV.Model.LFMulti
 import RbV.Model.PosTypes
 import RbV.Lemmas.SaisMain
+import RbV.Thm.GenSrcSmallInts
+import RbV.Lemmas.SmallInts
 /-!
 # C03 — suffix array = sorted permutation of all suffixes; LCP; shortest unique substrings
 
@@ -349,5 +351,58 @@ theorem sais_model_sorted (t : List Nat) (hne : t ≠ []) (hmin : ∀ p, p < t.l
 set_option maxRecDepth 100000 in
 example : Sais.suffixArray [98, 97, 110, 97, 110, 97, 36, 98, 97, 110, 97, 110, 97, 36] =
     [13, 6, 12, 5, 10, 3, 8, 1, 7, 0, 11, 4, 9, 2] := by decide
+
+/-! ## `LCPArray = SmallInts<i8, isize>`: the container `lcp()` writes through, translated from the source text
+
+`lcp()` builds its result with `SmallInts::from_elem(-1, n + 1)` and fills it exclusively through `set`; readers use
+`get` / `iter`.  `RbV/Gen/SrcSmallInts.lean` is regenerated from `src/data_structures/smallints.rs` on every `./check C03`
+(docs/notes/GEN.md, "Translated function bodies"); proofs in `RbV/Thm/GenSrcSmallInts.lean`, the container theorems proper
+are C18's.  Stated here for the `i8` range `[-128, 127]`. -/
+section lcp_container
+open RbV.Thm.GenSrcSmallInts
+
+/-- `SmallInts::from_elem(-1, m)`, as written, passes both assertions and builds `m` small entries `-1`; then any sequence
+of `set`s at existing indices, run with the **translated** `set`, does not panic, and the translated `get` reads back, at
+every index, the last value written there (or `-1`), `None` beyond the end — the plain-vector behaviour `lcp()` relies on,
+including values `≥ 127` that go to the overflow map -/
+theorem lcp_container_source_exact (m : Nat) (writes : List (Nat × Int)) (hw : ∀ x ∈ writes, x.1 < m) :
+    Gen.SrcSmallInts.fromElem (β := Int) (cBS (-128) 127) cSB (cZ (-128) 127) ltI 127 1 8 (-1) m
+      = Rs.Res.ok (List.replicate m (-1), []) ∧
+    ∃ small big,
+      (writes.map (fun x => Spec.SmallInts.Op.set x.1 x.2)).foldlM (srcStep (-128) 127 1 8) (List.replicate m (-1), [])
+        = Rs.Res.ok (small, big) ∧
+      ∀ i, Gen.SrcSmallInts.get (cBS (-128) 127) cSB (cZ (-128) 127) ltI 127 1 8 small big i
+        = Rs.Res.ok ((writes.foldl (fun l x => l.set x.1 x.2) (List.replicate m (-1)))[i]?) := by
+  refine ⟨fromElem_eq_model (-128) 127 (by omega) 1 8 (by omega) (-1) m (by omega), ?_⟩
+  have habs0 := Lemmas.SmallInts.abs_fromElem 127 (-1) m (by omega)
+  have hok : ∀ (ws : List (Nat × Int)) (l : List Int), l.length = m → (∀ x ∈ ws, x.1 < m) →
+      OpsOk l (ws.map (fun x => Spec.SmallInts.Op.set x.1 x.2)) := by
+    intro ws
+    induction ws with
+    | nil => intro _ _ _; trivial
+    | cons x ws ih =>
+      intro l hl hx
+      refine ⟨by simpa [hl] using hx x (by simp), ih _ (by simpa [Spec.SmallInts.specStep] using hl) ?_⟩
+      intro y hy; exact hx y (by simp [hy])
+  have hrun := run_eq_model (-128) 127 1 8 _ _ _ habs0
+    (hok writes _ (by simp [Spec.SmallInts.specFromElem]) hw)
+  have habs := Lemmas.SmallInts.abs_run (-128) 127 (writes.map (fun x => Spec.SmallInts.Op.set x.1 x.2)) _ _ habs0
+  have hspec : ∀ (ws : List (Nat × Int)) (l : List Int),
+      (ws.map (fun x => Spec.SmallInts.Op.set x.1 x.2)).foldl Spec.SmallInts.specStep l
+        = ws.foldl (fun l x => l.set x.1 x.2) l := by
+    intro ws
+    induction ws with
+    | nil => intro l; rfl
+    | cons x ws ih => intro l; simp only [List.map_cons, List.foldl_cons, Spec.SmallInts.specStep, ih]
+  refine ⟨_, _, hrun, fun i => ?_⟩
+  rw [get_eq_model, Lemmas.SmallInts.get_of_abs 127 _ _ habs i, hspec]
+  rfl
+
+-- an LCP value of exactly 127 (= `i8::MAX`, the overflow marker) written through the translated `set` reads back
+example : (do
+    let (sm, bg) ← Gen.SrcSmallInts.set (cBS (-128) 127) cSB (cZ (-128) 127) ltI 127 1 8 [-1, -1, -1] [] 1 127
+    Gen.SrcSmallInts.get (cBS (-128) 127) cSB (cZ (-128) 127) ltI 127 1 8 sm bg 1) = Rs.Res.ok (some 127) := by decide
+
+end lcp_container
 
 end RbV.Thm.C03
